@@ -529,3 +529,32 @@ Definition check_lex (c : string * string * bool) : bool :=
 Definition check_text (c : string * string * string) : bool :=
   let '(kind, s, expected) := c in
   s_eqb expected (if s_eqb kind "filter_comments" then filter_comments s else if s_eqb kind "strip" then s_strip s else "?").
+
+(* ------------------------------------------------------------------------------------------ *)
+(** * format auto-detection: from_string(text, dtype=None)
+    The cascade psi4 -> xyz -> xyz+ -> psi4+; only MoleculeFormatError moves on to the next reader, any other
+    exception escapes.  psi4+ (the zmatrix dialect) is outside the model: when the three Cartesian readers
+    all refuse the text the model answers [Err OutOfFuel]. *)
+Definition tag_with (d : string) (r : outcome processed) : outcome (string * processed) :=
+  match r with Ok p => Ok (d, p) | Err k => Err k end.
+Definition is_format_error (r : outcome processed) : bool :=
+  match r with Err MoleculeFormat => true | _ => false end.
+Definition parse_auto (text : string) : outcome (string * processed) :=
+  let s := filter_comments (s_strip text) in
+  let r1 := parse_psi4 s in
+  if is_format_error r1 then
+    let r2 := parse_xyz true s in
+    if is_format_error r2 then
+      let r3 := parse_xyz false s in
+      if is_format_error r3 then Err OutOfFuel else tag_with "xyz+" r3
+    else tag_with "xyz" r2
+  else tag_with "psi4" r1.
+
+Definition check_auto (c : string * outcome processed_b) : bool :=
+  let '(text, expected) := c in
+  match parse_auto text, expected with
+  | Ok (_, p), Ok q => processed_eqb p q
+  | Err OutOfFuel, _ => true                     (* psi4+ territory: not compared *)
+  | Err j, Err k => ekind_eqb j k
+  | _, _ => false
+  end.
